@@ -26,6 +26,7 @@
 from typing import Dict, List, Set, Sequence, Tuple, Iterable  # noqa: F401
 from typing import Callable, Optional, Union, Any  # noqa: F401
 
+import struct
 import traceback
 
 from ssh_audit.kexdh import KexDH, KexDHException, KexGroup1, KexGroup14_SHA1, KexGroup14_SHA256, KexCurve25519_SHA256, KexGroup16_SHA512, KexGroup18_SHA512, KexGroupExchange_SHA1, KexGroupExchange_SHA256, KexNISTP256, KexNISTP384, KexNISTP521
@@ -166,7 +167,7 @@ class HostKeyTest:
                     kex_group.send_init(s)
                     kex_reply = kex_group.recv_reply(s)
                     raw_hostkey_bytes = kex_reply if kex_reply is not None else b''
-                except KexDHException:
+                except (KexDHException, struct.error, ValueError, IndexError):  # Malformed replies surface as parsing errors of various kinds.
                     msg = "Failed to parse server's host key."
                     if not out.debug:
                         msg += "  Re-run in debug mode to see stack trace."
